@@ -2,6 +2,10 @@ package main
 
 import (
 	"fmt"
+	"go/ast"
+	"go/parser"
+	"go/printer"
+	"go/token"
 	"os"
 	"runtime"
 	"runtime/debug"
@@ -231,9 +235,61 @@ func (c *nfChain) nextRoundRelevant(from int, r *Report, known []knownFinding) b
 	save := inlineSerialBase
 	ov := w.BuildNormalForm()
 	inlineSerialBase = save // (a dry run: the real build of this round reuses the same names)
+	touched := false
 	for f := range ov {
 		if files[f] {
-			return true
+			touched = true
+		}
+	}
+	if !touched {
+		return false
+	}
+	// finer: does the text of one of those functions itself change? (other functions of the same file may)
+	for _, o := range r.Obls {
+		if o.status == Discharged || !open[o.Rule] {
+			continue
+		}
+		for _, tok := range strings.FieldsFunc(o.Key, func(c rune) bool { return c == '|' || c == '<' || c == '#' || c == '=' }) {
+			tok = strings.TrimPrefix(tok, "-")
+			fn := w.Funcs[tok]
+			if fn == nil || !fn.Pos().IsValid() {
+				continue
+			}
+			root := fn
+			for root.Parent() != nil {
+				root = root.Parent()
+			}
+			fd, ok := root.Syntax().(*ast.FuncDecl)
+			if !ok {
+				return true
+			}
+			fname := w.Fset.Position(fd.Pos()).Filename
+			nb, changed := ov[fname]
+			if !changed {
+				continue
+			}
+			var before strings.Builder
+			printer.Fprint(&before, w.Fset, fd)
+			fs := token.NewFileSet()
+			pf, err := parser.ParseFile(fs, fname, nb, 0)
+			if err != nil {
+				return true
+			}
+			same := false
+			for _, d := range pf.Decls {
+				nd, ok := d.(*ast.FuncDecl)
+				if !ok || nd.Name.Name != fd.Name.Name || (nd.Recv == nil) != (fd.Recv == nil) {
+					continue
+				}
+				var after strings.Builder
+				printer.Fprint(&after, fs, nd)
+				if squeeze(after.String()) == squeeze(before.String()) {
+					same = true
+				}
+			}
+			if !same {
+				return true
+			}
 		}
 	}
 	return false
